@@ -150,6 +150,8 @@ func VerifParse() {
 	var s string
 	if verifParamStr("alphabet") == "ascii" {
 		s = verifNondetString("s", n, 0, 127)
+	} else if verifParamStr("alphabet") == "bytes" {
+		s = verifNondetString("s", n, 0, 255)
 	} else {
 		s = verifNondetString("s", n, '+', 'y')
 		for i := 0; i < n; i++ {
@@ -241,4 +243,21 @@ func VerifParseDest() {
 			verifCover("parsedest.special")
 		}
 	}
+}
+
+// VerifAsciiLower: the real asciiLower against its contract (used as a summary by the parser
+// harnesses): same length, ASCII upper-case letters lowered, every other byte (0..255) unchanged.
+func VerifAsciiLower() {
+	n := int(verifParamInt("n"))
+	s := verifNondetString("s", n, 0, 255)
+	got := asciiLower(s)
+	verifObserveStr("lower", got)
+	ok := len(got) == n
+	if ok {
+		for i := 0; i < n; i++ {
+			up := verifAnd(s[i] >= 'A', s[i] <= 'Z')
+			ok = verifAnd(ok, verifOr(verifAnd(up, got[i] == s[i]+32), verifAnd(verifNot(up), got[i] == s[i])))
+		}
+	}
+	verifAssert(ok, "C14.asciilower.contract")
 }
